@@ -57,6 +57,8 @@ structure Params where
   registered : List String := []      -- registry entries carrying the CLP permission
   whitelist : List String := []       -- clp decommission whitelist
   blocked : List String := []         -- bank blocked recipients (module accounts, blacklist)
+  marginPools : List String := []     -- x/margin params.Pools (margin-enabled pools)
+  removalThreshold : Dec := ⟨0⟩       -- x/margin params.RemovalQueueThreshold
   deriving Repr, Inhabited
 
 def clpAcct : String := "clp"
